@@ -18,6 +18,7 @@ RULE = (
     "decodes under the accepted transfer syntax to the original, and a dataset was only converted between uncompressed syntaxes "
     "of the same byte order; when the call raises, nothing was written; non-trivial = more than one candidate context existed "
     "for the message or the dataset's syntax differs from every accepted one; distinct = distinct configurations (inputs dominate)"
+    " Also: the same object sent from memory and then straight from its file in chunked mode (file bytes go out unconverted: the context's syntax must be the file's), and Unified Procedure Step operations for the UPS Push SOP class, which may travel on an accepted Watch/Pull/Event/Query context (documented substitution) provided the sender holds the SCU role there."
 )
 TSALL = [C.IVLE, C.EVLE, C.EVBE, C.DEFL, "1.2.840.10008.1.2.4.50"]
 UNCOMP_LE = {C.IVLE, C.EVLE, C.DEFL}
